@@ -15,6 +15,9 @@ pub struct EncCase {
     pub macros: bool,
     pub fnc1: bool,
     pub eci: Option<u32>,
+    /// permutation (0..24) of the order in which the four builder options are applied; the result
+    /// must not depend on it
+    pub order: u8,
 }
 
 impl EncCase {
@@ -22,6 +25,9 @@ impl EncCase {
         let mut c = Case::new(kind).bytes("input", &self.input).with("list", &self.list).with("mask", self.mask).with("macro", self.macros as u8).with("fnc1", self.fnc1 as u8);
         if let Some(e) = self.eci {
             c = c.with("eci", e);
+        }
+        if self.order != 0 {
+            c = c.with("order", self.order);
         }
         c
     }
@@ -33,6 +39,7 @@ impl EncCase {
             macros: c.get_bool("macro"),
             fnc1: c.get_bool("fnc1"),
             eci: c.get("eci").and_then(|s| s.parse().ok()),
+            order: c.get_usize("order") as u8,
         }
     }
     pub fn key(&self) -> u64 {
@@ -74,7 +81,25 @@ pub enum EncOut {
 
 pub fn builder(c: &EncCase) -> Option<DataMatrixBuilder> {
     let list = list_from_spec(&c.list)?;
-    Some(DataMatrixBuilder::new().with_symbol_list(list).with_encodation_types(modes_from_mask(c.mask)).with_macros(c.macros).with_fnc1_start(c.fnc1))
+    // apply the four options in the order given by the permutation index
+    let mut idx: Vec<usize> = vec![0, 1, 2, 3];
+    let mut code = c.order as usize % 24;
+    let mut order = Vec::with_capacity(4);
+    for k in (1..=4).rev() {
+        order.push(idx.remove(code % k));
+        code /= k;
+    }
+    let mut b = DataMatrixBuilder::new();
+    let mut list = Some(list);
+    for o in order {
+        b = match o {
+            0 => b.with_symbol_list(list.take().unwrap()),
+            1 => b.with_encodation_types(modes_from_mask(c.mask)),
+            2 => b.with_macros(c.macros),
+            _ => b.with_fnc1_start(c.fnc1),
+        };
+    }
+    Some(b)
 }
 
 pub fn do_encode(c: &EncCase, want_bitmap: bool) -> EncOut {
@@ -101,7 +126,7 @@ pub fn do_encode(c: &EncCase, want_bitmap: bool) -> EncOut {
 pub fn gen_case(rng: &mut Rng, max_len: usize) -> EncCase {
     let input = inputs::gen_input(rng, max_len);
     let (list, mask) = if rng.chance(1, 4) { ("default".to_string(), 63) } else { (inputs::gen_list_spec(rng), inputs::gen_mask(rng)) };
-    EncCase { input, list, mask, macros: rng.chance(1, 2), fnc1: rng.chance(1, 8), eci: None }
+    EncCase { input, list, mask, macros: rng.chance(1, 2), fnc1: rng.chance(1, 8), eci: None, order: if rng.chance(1, 2) { 0 } else { rng.below(24) as u8 } }
 }
 
 /// coverage tags of one stream, from its R-DEC event log
